@@ -321,6 +321,53 @@ def ops_for_type(ctx, L, tname):
     ctx.count("operator_pairs", len(pick) * len(pick))
 
 
+INPLACE = [("+=", operator.iadd, 1), ("-=", operator.isub, 1), ("*=", operator.imul, 3), ("//=", operator.ifloordiv, 2), ("%=", operator.imod, 7), ("&=", operator.iand, 0x0F), ("|=", operator.ior, 0x0A), ("^=", operator.ixor, 0x05), ("<<=", operator.ilshift, 1), (">>=", operator.irshift, 1)]
+
+
+def inplace_ops(ctx, L, tname):
+    """`x += n` on a protocol integer behaves as for the plain integer: the name is re-bound to a value carrying the
+    result, every other holder of the old value (an alias, a message field, a class-level constant) keeps it."""
+    T = O.lib_type(tname)
+    p = L.prim(tname)
+    lo, hi = L.limits(tname)
+    vals = [v for v in (3, 0x144, 0x40000001, lo + 5, hi - 5) if lo <= v <= hi][:3]
+    members = [m for m in p.get("members", []) if "value" in m][:: max(1, len([m for m in p.get("members", []) if "value" in m]) // 3)][:3]
+    n = 0
+    for sym, op, k in INPLACE:
+        for v in vals:
+            payload = {"type": tname, "value": v, "op": sym}
+            x = ctx.guard(lambda: T(v), f"C16:construct:{p['kind']}", payload)
+            if x is None:
+                return
+            alias = x
+            r = ctx.guard(lambda: op(x, k), f"C16:inplace:{p['kind']}", payload)
+            if r is None:
+                continue
+            want = op(int(v), k)
+            n += 1
+            ctx.case((tname, "inplace", sym, v), True, sample={"type": tname, "statement": f"x = {tname}({v}); alias = x; x {sym} {k}", "x": want, "alias": v} if n == 2 else None)
+            if int(r) != want:
+                ctx.problem(f"C16:inplace:result:{p['kind']}", f"x = {tname}({v}); x {sym} {k} gives {int(r)}, the plain integer gives {want}", payload)
+                return
+            if int(alias) != v or bytes(alias.to_bytes()) != v.to_bytes(p["width"], "big", signed=p["signed"]):
+                ctx.problem(f"C16:inplace:alias:{p['kind']}", f"x = {tname}({v}); alias = x; x {sym} {k} changed the alias to {int(alias)} (a plain integer's other holders keep {v})", payload)
+                return
+        for m in members:
+            c = getattr(T, m["name"], None)
+            if c is None or not isinstance(c, T):
+                continue
+            v = m["value"]
+            payload = {"type": tname, "value": v, "op": sym, "member": m["name"]}
+            ctx.guard(lambda: op(c, k), f"C16:inplace:{p['kind']}", payload)
+            again = getattr(T, m["name"])
+            n += 1
+            if int(again) != v or int(c) != v:
+                ctx.problem(f"C16:inplace:constant:{p['kind']}", f"c = {tname}.{m['name']}; c {sym} {k} changed the declared constant {tname}.{m['name']} from {v} to {int(again)}", payload)
+                return
+            check_value(ctx, L, tname, v)
+    ctx.count("inplace-operator-cases", n)
+
+
 def run_shard(ctx):
     L = layout()
     names = sorted(L.prims)
@@ -337,6 +384,7 @@ def run_shard(ctx):
         else:
             units.append((t, interesting_values(L, t), "boundary"))
         units.append((t, None, "ops"))
+        units.append((t, None, "inplace"))
         units.append((t, None, "from-typed"))
         if any("range" in m for m in L.prim(t).get("members", [])):
             units.append((t, None, "names"))
@@ -360,6 +408,8 @@ def run_shard(ctx):
     for t, vals, mode in ctx.mine(units):
         if mode == "ops":
             ctx.run_plain(lambda: ops_for_type(ctx, L, t), f"ops:{t}")
+        elif mode == "inplace":
+            ctx.run_plain(lambda: inplace_ops(ctx, L, t), f"inplace:{t}")
         elif mode == "from-typed":
             ctx.run_plain(lambda: from_typed_constants(ctx, L, t), f"from-typed:{t}")
         elif mode == "names":
